@@ -34,6 +34,11 @@ def items(tier: str) -> List[Any]:
         if s not in seen:
             seen.add(s)
             out.append(("shuffle", s))
+    # soundness-only: multi-way branches consuming a tracked condition (or the tracked field itself)
+    for s in spaces.multiway(list(full) + []):
+        if s not in seen:
+            seen.add(s)
+            out.append(("shuffle", s))
     # soundness-only: loops that really iterate (counter conditions)
     for s in spaces.counted_loops(small[:2] + [["txn Fee", "int 1000", ">"]], tier):
         if s not in seen:
